@@ -82,13 +82,16 @@ func nextStringMapArguments(cmd string, args Arguments) (map[string]string, erro
 	for err == nil {
 		val, err = args.NextString()
 		if err != nil {
-			newMissingArgumentError(cmd, key, err)
+			return nil, newMissingArgumentError(cmd, key, err)
 		}
 		dir[key] = val
 		key, err = args.NextString()
 	}
 	if !errors.Is(err, proto.ErrEOM) {
 		return nil, err
+	}
+	if len(dir) == 0 {
+		return nil, newMissingArgumentError(cmd, "key", err)
 	}
 	return dir, nil
 }
